@@ -457,9 +457,9 @@ def evaluate__avg(self: XPathFunction, context: ta.ContextType = None) \
             raise self.error('FORG0006', err)
     else:
         try:
-            return sum(
-                float(x) if isinstance(x, Decimal) else x for x in values  # type: ignore[misc]
-            ) / len(values)
+            numbers = [float(x) if isinstance(x, Decimal) else x for x in values]
+            # no integer 0 as start value: keeps a negative zero
+            return sum(numbers[1:], start=numbers[0]) / len(values)  # type: ignore[misc, arg-type]
         except TypeError as err:
             if isinstance(context, XPathSchemaContext):
                 return []
